@@ -142,8 +142,8 @@ def run(ctx, replay):
         return
 
     models(ctx, thorough)
-    single = emit(ctx, "Emit_1.cfg", 108)
-    double = emit(ctx, "Emit_2.cfg", 108 * 108, workers=8)
+    single = emit(ctx, "Emit_1.cfg", 126)
+    double = emit(ctx, "Emit_2.cfg", 126 * 126, workers=8)
     # the same scripts under the all-filters-on model: a tree that has gained the owner filter conforms
     # to these predictions instead, which is not drift
     for scripts, cfg in ((single, "EmitSound_1.cfg"), (double, "EmitSound_2.cfg")):
